@@ -201,6 +201,10 @@ func (info *Info) Encode() []byte {
 		total += len(lookupList)
 	}
 
+	if scriptListOffset > 0xFFFF || featureListOffset > 0xFFFF || lookupListOffset > 0xFFFF {
+		panic("script list and feature list too large")
+	}
+
 	buf := make([]byte, total)
 	copy(buf, []byte{
 		0, 1, // major version
